@@ -9,13 +9,14 @@ from ..pathcond import implied, rimplied, cmp_outcome
 from .. import pairs
 
 MANIFEST = {
-    'technique': 'paired-complement-write rule over path-wise symbolic execution (D-lin sums of the two phase stores equal the conserved total); clamp-before-use and index-set rules on the CFG',
-    'text': 'Decides for every input and every path of VLE (all set_* / _set_*_chemical / _lever_rule / _setup / set_flows call sites), SLE and LLE: '
-            'each store into one phase row at an index has a partner store into the other row at the same index and the two values sum symbolically '
-            'to the conserved total of that region (mol_vle, the pooled liquid, the solute amount, or the documented reactive variants); in-place '
-            'transfers add and remove the same amount; the vapour amount returned by the fixed-point solver is clipped into [0, total]; the H/S '
-            'correction fraction and the lever-rule fraction are clamped before use; locked chemicals are written only in _setup. '
-            'That the numerical solvers respect their bounds is not decided.',
+    'technique': 'paired-complement-write rule over path-wise symbolic execution (D-lin sums of the two phase stores equal the conserved total); clamp-before-use and '
+            'index-set rules on the CFG; divisibility rule on symbolic forms (the part subtracted in a complement is a multiple of the same whole)',
+    'text': 'Decides for every input and every path of VLE (all set_* / _set_*_chemical / _lever_rule / _setup / set_flows call sites), SLE and LLE: each store '
+            'into one phase row at an index has a partner store into the other row at the same index and the two values sum symbolically to the conserved total of '
+            'that region (mol_vle, the pooled liquid, the solute amount, or the documented reactive variants); in-place transfers add and remove the same amount; '
+            'the vapour amount returned by the fixed-point solver is clipped into [0, total]; the H/S correction fraction and the lever-rule fraction are clamped '
+            "before use; locked chemicals are written only in _setup; in LLE.__call__ every complement A = W - B has B = q*W or the solver's split of the same W, a "
+            'necessary condition of 0 <= B <= W. That the numerical solvers respect their bounds is not decided.',
 }
 
 VLEF = 'thermosteam/equilibrium/vle.py'
@@ -85,6 +86,7 @@ def run(ctx):
         'D2 clip before use: fixed-point vapour amounts clipped into [0,total]; H/S correction fraction and lever-rule fraction clamped',
         'D3 locked (light/heavy) chemicals are written only by _setup; every later store uses the equilibrium index set',
         'D4 Stream.vlle: pooled liquids, normalise/rescale pair cancels',
+        'D5 LLE.__call__: in every complement A = W - B the part B is q*W (closed form) or the solver\'s split of the same W -- never built from another amount (necessary for 0 <= B <= W)',
     ]
     ctx.not_decided = ['that numerical solver outputs (pseudo-equilibrium, shgo, Rachford-Rice) respect their bounds', 'non-negativity of LLE results']
     d1 = ctx.rule('D1', 'paired complement writes (VLE/SLE/LLE)', floor=40)
@@ -170,7 +172,9 @@ def run(ctx):
 
     clip_rules(ctx, d2, vle)
     sle_rules(ctx, d1)
-    lle_rules(ctx, d1)
+    lle_paths = lle_rules(ctx, d1)
+    d5 = ctx.rule('D5', 'LLE complements: the part subtracted is a fraction of the same whole', floor=2)
+    fraction_of_whole(ctx, d5, lle_paths)
     vlle_rule(ctx, d4)
 
 
@@ -410,6 +414,59 @@ def lle_rules(ctx, d1):
     pairs.report(res, d1, 'LLE.__call__', f)
     if not res.ok and not res.bad:
         d1.fail('LLE.__call__', 'no-stores', 'no phase stores found on %d paths' % n, f, f.node)
+    return ps
+
+
+def fraction_of_whole(ctx, d5, ps):
+    """Non-negativity of a complement  A = W - B  needs 0 <= B <= W.  In LLE.__call__ B is either q*W with a scalar
+    fraction q (closed form of the remembered partition coefficients) or the solver's answer for the very same W.  If B is
+    built from ANOTHER amount than the W it is subtracted from (a remembered composition, the unnormalised flows ...),
+    B <= W no longer follows and a phase flow can go negative while the totals still agree."""
+    prog = ctx.prog
+    f = prog.cls('LLE', LLEF).methods['__call__']
+    seen = set()
+    for p in ps:
+        if p.raised:
+            continue
+        for e in p.events:
+            st = e.stmt
+            if not (e.kind == 'assign' and isinstance(st, ast.Assign) and isinstance(st.value, ast.BinOp) and isinstance(st.value.op, ast.Sub)
+                    and isinstance(st.value.left, ast.Name)):
+                continue
+            tot = e.value                      # W - B
+            # the value the whole had when the complement was taken: its latest assignment on this path
+            W = None
+            for e2 in p.events:
+                if e2 is e:
+                    break
+                if e2.kind == 'assign' and e2.target == st.value.left.id and isinstance(e2.value, Form):
+                    W = e2.value
+            if W is None:
+                W = Form.atom(st.value.left.id)
+            B = W - tot
+            key = (st.lineno, repr(sorted(B.t.items(), key=str)), repr(sorted(W.t.items(), key=str)))
+            if key in seen:
+                continue
+            seen.add(key)
+            if not W.is_monomial():
+                d5.skip('LLE.__call__', 'whole is not a monomial: %s' % W.pretty(), f, st)
+                continue
+            (wk, wc), = W.t.items()
+            need = dict(wk)
+            okk = True
+            for k, c in B.t.items():
+                have = dict(k)
+                if all(have.get(a, 0) >= x for a, x in need.items() if x > 0):
+                    continue
+                # the solver's answer for the same whole
+                if len(k) == 1 and k[0][1] == 1 and '(' in k[0][0] and W.pretty() in k[0][0]:
+                    continue
+                okk = False
+            if okk:
+                d5.ok('LLE.__call__', '%s: the part subtracted is a fraction (or the solver\'s split) of the same whole %s' % (src(st), W.pretty()), f, st)
+            else:
+                d5.fail('LLE.__call__', 'part-of-another-whole',
+                        '%s: the part %s is not a multiple of the whole %s it is subtracted from, so the complement can be negative' % (src(st), B.pretty(), W.pretty()), f, st)
 
 
 def vlle_rule(ctx, d4):
